@@ -754,6 +754,131 @@ func (c *Ctx) c13Counts(b BK, decodeTarget types.Object) {
 			}
 		}
 	}
+	// Restore reads the dump to its end: it stops only because a record failed to decode (end of input included) — a loop that is left
+	// for another reason (a size cap, a deadline) restores a prefix of the dump and reports fewer entries than were dumped
+	for _, p := range run.paths {
+		if bad || p.Panic || c.featurePath(p) {
+			continue
+		}
+		failed, decodes := false, 0
+		// how the path leaves the decode loop: by break / return (the code's own exit) or because the walk stops after one iteration
+		// (a `for {}` has no exit of its own there: not judged)
+		ownExit, inLoop := false, 0
+		for _, ev := range p.Events {
+			switch {
+			case ev.Kind == pw.EvLoopBegin:
+				inLoop++
+				ownExit = false
+			case ev.Kind == pw.EvLoopEnd:
+				inLoop--
+				ownExit = ev.Note == "break"
+			case ev.Kind == pw.EvReturn && inLoop > 0:
+				ownExit = true
+			}
+			if ev.Kind == pw.EvCall && strings.HasSuffix(ev.Role, "gob.Decoder.Decode") && len(ev.Results) == 1 {
+				decodes++
+				if nilTri(p, ev.Results[0]) != triTrue {
+					failed = true
+				}
+			}
+		}
+		if !failed && ownExit {
+			r.Bad("R13.3", rname, "restore-stops-before-end-of-input", c.Pos(p.RetPos), fmt.Sprintf("Restore returns on a path on which no Decode failed (%d succeeded): the rest of the dump is never read", decodes), shortTrace(p))
+			bad = true
+		}
+	}
+	// … the path walk takes a loop body once, so an exit that needs a second iteration (n >= limit) is never walked: on the syntax
+	// tree every break out of / return from inside the decode loop sits under a condition that mentions an error value
+	if fd, _ := c.funcDecl(rname); fd != nil && !bad {
+		info := c.Pkg.TypesInfo
+		for _, bd := range c.reachBodies(fd, 2) {
+			var stack []ast.Node
+			var loop *ast.ForStmt
+			isDecode := func(n ast.Node) bool {
+				found := false
+				ast.Inspect(n, func(x ast.Node) bool {
+					if call, ok := x.(*ast.CallExpr); ok {
+						if sel, ok := ast.Unparen(call.Fun).(*ast.SelectorExpr); ok && sel.Sel.Name == "Decode" {
+							if t := info.TypeOf(sel.X); t != nil && strings.HasSuffix(types.TypeString(t, nil), "gob.Decoder") {
+								found = true
+							}
+						}
+					}
+					return !found
+				})
+				return found
+			}
+			mentionsErr := func(e ast.Expr) bool {
+				found := false
+				ast.Inspect(e, func(x ast.Node) bool {
+					if ex, ok := x.(ast.Expr); ok {
+						if t := info.TypeOf(ex); t != nil && types.TypeString(t, nil) == "error" {
+							found = true
+						}
+					}
+					return !found
+				})
+				return found
+			}
+			var visit func(n ast.Node) bool
+			visit = func(n ast.Node) bool {
+				if _, isLit := n.(*ast.FuncLit); isLit {
+					return false
+				}
+				stack = append(stack, n)
+				if fs, ok := n.(*ast.ForStmt); ok && loop == nil && fs.Cond == nil && isDecode(fs.Body) {
+					loop = fs
+				}
+				if loop == nil {
+					return true
+				}
+				exit := false
+				switch x := n.(type) {
+				case *ast.ReturnStmt:
+					exit = true
+				case *ast.BranchStmt:
+					if x.Tok == token.BREAK {
+						// does it leave the decode loop? nearest enclosing breakable statement
+						for i := len(stack) - 2; i >= 0; i-- {
+							switch stack[i].(type) {
+							case *ast.ForStmt, *ast.RangeStmt, *ast.SwitchStmt, *ast.TypeSwitchStmt, *ast.SelectStmt:
+								exit = stack[i] == ast.Node(loop) || x.Label != nil
+								i = -1
+							}
+						}
+					}
+				}
+				if exit {
+					within, justified := false, false
+					for _, a := range stack {
+						if a == ast.Node(loop) {
+							within = true
+						}
+						if ifs, ok := a.(*ast.IfStmt); ok && within && mentionsErr(ifs.Cond) {
+							justified = true
+						}
+					}
+					if within && !justified {
+						r.Bad("R13.3", rname, "restore-stops-before-end-of-input", c.Pos(n.Pos()), "the decode loop is left under a condition that does not mention an error: Restore stops although the input has more records, the rest of the dump is never read", nil)
+						bad = true
+					}
+				}
+				return true
+			}
+			ast.Inspect(bd.Body, func(n ast.Node) bool {
+				if n == nil {
+					if len(stack) > 0 {
+						if stack[len(stack)-1] == ast.Node(loop) {
+							loop = nil
+						}
+						stack = stack[:len(stack)-1]
+					}
+					return true
+				}
+				return visit(n)
+			})
+		}
+	}
 	// the end of the input is not an error: an error returned by Restore has been found not to be io.EOF on that path (the dump of an
 	// empty cache is zero bytes: it restores to (0, nil))
 	for _, p := range run.paths {
